@@ -359,7 +359,7 @@ def t_hashseeds(shard, nshards, seed, ev, known, n=150, seeds=(0, 1, 2, 3)):
 def plan(tier):
     q = tier == "quick"
     return [
-        Task("words", t_words, shards=4 if q else 16, n=1200 if q else 30000),
+        Task("words", t_words, shards=4 if q else 16, n=1200 if q else 15000),
         Task("secrets", t_secrets, shards=1 if q else 4, n=300 if q else 5000),
         Task("hashseeds", t_hashseeds, shards=2 if q else 16, n=150 if q else 2000, seeds=(0, 1, 2, 3) if q else (0, 1, 2, 3, 4, 5, 6, 7, "random")),
     ]
